@@ -182,12 +182,7 @@ impl<'a> PostConversionLinter for UserDefinedFunctionLinter<'a> {
                 }
                 self.visit_function(n, *pos, args)
             }
-            Expression::BinaryExpression(_, left, right, _) => {
-                self.visit_expression(left)?;
-                self.visit_expression(right)
-            }
-            Expression::UnaryExpression(_, child) => self.visit_expression(child),
-            _ => Ok(()),
+            e => self.visit_child_expressions(e, *pos),
         }
     }
 }
